@@ -563,3 +563,24 @@ Lemma duration_example :
      [(0, 6, 14000, false, true); (1, 6, 14000, false, true)];
      [(0, 7, 16000, true, true); (1, 7, 16000, true, true)]] /\ ph st = PStopped.
 Proof. vm_compute. repeat split; reflexivity. Qed.
+
+(** * The whole session: order *)
+Theorem session_order cf now initres evs inits gs st :
+  session cf now initres evs = (inits, gs, st) ->
+  inits = repIdxs cf /\
+  numbered cf (nextNr (snd (start cf now initres))) gs /\
+  (ph (snd (start cf now initres)) = PRunning ->
+   nextNr (snd (start cf now initres)) = findLastSegNr cf now + 1).
+Proof.
+  unfold session. intros H.
+  assert (Hi : fst (start cf now initres) = repIdxs cf).
+  { unfold start. destruct (negb _); [reflexivity|]. destruct (nrSegsToSend cf) as [ns| |]; try reflexivity.
+    destruct (sc_avail cf _); reflexivity. }
+  destruct (start cf now initres) as [i0 st0] eqn:Es. cbn [fst snd] in *.
+  destruct (run cf st0 evs) as [gs0 st1] eqn:Er. inversion H; subst.
+  split; [reflexivity|]. split; [apply (run_numbered _ _ _ _ _ Er)|].
+  intros Hr. unfold start in Es. destruct (negb _); [inversion Es; subst; discriminate|].
+  destruct (nrSegsToSend cf) as [ns| |]; try (inversion Es; subst; discriminate).
+  destruct (sc_avail cf _); try (inversion Es; subst; discriminate).
+  inversion Es; subst. rewrite loopTop_next. reflexivity.
+Qed.
